@@ -68,6 +68,9 @@ def one(sid, rnd, nx, ni, with_dir, hold, invoke_pos, lat=0, dot=False):
     pos = invoke_pos % (len(order) + 1)
     order.insert(pos, "INVOKE")
     s.init()
+    # (nobody can talk to the emulator before the init request has been taken up: the function metadata echoed by a
+    #  registration is set there)
+    s.until_ev("Tel", key="kind", val="InitStart")
     tags = {}
     inv = None
     execd = set()
@@ -116,6 +119,29 @@ def _independent(a, held, exts):
     return True
 
 
+def init_error_held(sid, kind):
+    """a registered extension reports an init error and then just stays there, never asking for its next event: it has
+    not arrived, so initialisation does not complete and the pending invocation is not delivered (it times out)"""
+    exts = ["e1", "e2"] if kind == "ext" else ["e2"]
+    s = Scn(sid, ext=exts, timeout_ms=600, opWaitMs=6000, onTerm={"e1": "exit", "e2": "exit"})
+    s.meta(family="initbarrier", kind="init-error-held", who=kind)
+    s.init()
+    for e in exts:
+        s.await_exec(base=e)
+        s.register("ext:" + e, ["INVOKE"])
+    s.await_exec(kind="rt")
+    victim = "ext:e1" if kind == "ext" else "int:i1"
+    if kind == "int":
+        s.register("int:i1", ["INVOKE"])
+    s.call(victim, "exterror", which="init", errType="Extension.ConfigInvalid")
+    s.poll("ext:e2")
+    s.poll("rt")
+    it = s.invoke(size=4, seed=9)
+    s.wait(it)
+    s.recover({e: ["INVOKE"] for e in exts})
+    return s.done()
+
+
 def scenarios(ctx):
     rnd = random.Random(ctx.seed)
     out = []
@@ -138,7 +164,7 @@ def run(ctx):
     # forced schedules through the pause points of /repo (-tags verif)
     sc.run_families(ctx, forced.scenarios('c03', ('clear-vs-invoke', 'register-vs-close')), "forced-schedule")
     ctx.assumptions += sc.ASSUME
-    sc.run_families(ctx, scenarios(ctx), "initbarrier")
+    sc.run_families(ctx, scenarios(ctx) + [init_error_held("c03-ieh1", "ext"), init_error_held("c03-ieh2", "int")], "initbarrier")
     ctx.coverage["exhaustive"] = False
 
 
